@@ -120,5 +120,20 @@ CLAIMS = {
                'byte/fragment memory model) + translator for constants + extracted-model and extracted-oracle differential '
                'correspondence with an in-process C harness (normal + ASan)',
  },
+
+ 'C02': {
+  'text': 'Coq theorems (closed under the global context) about a transition system of any number of processes each performing open, flock, read, '
+          '[truncate, write], unlock as separate atomic steps under EVERY schedule: at most one process is between flock and unlock; only the holder changes the file; '
+          'whatever a process has read is the complete committed result of the processes granted the lock before it (never a truncated or half-written file); when all '
+          'started processes have finished the file equals applying them one at a time in lock order, each exactly once (no lost update); for robsd-step commands '
+          '(C01 model) each report equals running the command alone on that prefix; without the lock a two-writer schedule loses an update (witness). '
+          'Tied to the code by driving 2-4 real robsd-step processes through sync points in step.c along generated schedules: the observed event trace must be a trace of '
+          'the model with the same file content after every event and the same reports, and the final file/reports must equal some serial order (extracted oracle).',
+  'note': 'ASSUMED, not verified: flock(2) semantics, atomicity of the operations between sync points, fopen("w") truncating at open, lock release at exit. A crash inside the critical '
+          'section is outside the quantifier. One report-order race (waiter reports after_lock before the releasing process reports after_unlock) is normalised by the harness only when '
+          'the previous holder was running towards its single remaining operation. Trusted: Coq kernel, extraction, ROBSD_VERIF hook (verif.h + points in step.c), scheduler, /proc wchan.',
+  'technique': 'Coq invariant proof over all schedules of a lock-protected read-truncate-write transition system + refutation witness without the lock + hook-driven schedule correspondence with '
+               'real processes + extracted serialisability oracle',
+ },
 }
 NOT_APPLICABLE = {p: PENDING for p in ['C%02d' % i for i in range(1, 21)] if p not in CLAIMS}
